@@ -74,6 +74,8 @@ VARIABLES
   rq,      \* registry request in flight: [to, sch, az, ini, strip]
   tk,      \* token request in flight: [stage, to, sch, secs]
   gc,      \* continuation of a GenerateAuth that needs the network: [ctx, key, good, nto, nsch, copied]
+  again,   \* the current request has already been attempted (Resp.retryCount > 1)
+  sg,      \* "" | "done": nested GET on the source that re-opens a streamed body before a repeated attempt
   loc,     \* upload location: <<host, scheme>> of the final URL of the last POST / PATCH (blobGetUploadURL)
   au,      \* handlers: <<clientHost, repoKey, urlHost, type>> -> handler
   nf,      \* faults used
@@ -82,8 +84,8 @@ VARIABLES
   wire,    \* history: messages sent (outside the VIEW)
   script   \* history: replies chosen by the servers (outside the VIEW)
 
-vars == <<cf, pc, ph, hosts, cur, rq, tk, gc, loc, au, nf, named, leaks, wire, script>>
-View == <<cf, pc, ph, hosts, cur, rq, tk, gc, loc, au, nf, named, leaks>>
+vars == <<cf, pc, ph, hosts, cur, rq, tk, gc, again, sg, loc, au, nf, named, leaks, wire, script>>
+View == <<cf, pc, ph, hosts, cur, rq, tk, gc, again, sg, loc, au, nf, named, leaks>>
 
 Regs == {"A", "B", "M"}
 TokOf(h) == CASE h = "A" -> "Ta" [] h = "B" -> "Tb" [] h = "M" -> "Tm" [] OTHER -> "X"
@@ -106,8 +108,11 @@ HasIdt(k) == k \in {"tok", "uptok"}
 (***************************************************************************)
 S(reg, repo, meth, obj, mir, direct, onok, onfail) ==
   [reg |-> reg, repo |-> repo, meth |-> meth, obj |-> obj, mir |-> mir, direct |-> direct,
-   onok |-> onok, onfail |-> onfail, ign |-> FALSE]
+   onok |-> onok, onfail |-> onfail, ign |-> FALSE, src |-> FALSE]
 Ign(st) == [st EXCEPT !.ign = TRUE]     \* Req.IgnoreErr (anonymous blob mount): a back-off drops the host
+\* Req.BodyFunc streams the blob from the source registry: every repeated attempt first seeks the
+\* source reader back to 0, which is a new GET on the source (reghttp Resp.Seek -> Resp.next)
+Src(st) == [st EXCEPT !.src = TRUE]
 Ext == <<cf.extHost, cf.extSch>>
 Loc == <<"loc">>                        \* Req.DirectURL = the upload location
 \* Req.BodyBytes requests install a GetBody that returns the already drained reader: a 307 cannot
@@ -119,12 +124,12 @@ Chain(o, n, next, ext) ==
      S("A", "r1", "GET", o, TRUE, <<>>, n + 3, IF ext THEN n + 2 ELSE 0),
      S("A", "r1", "GET", o, FALSE, IF ext THEN Ext ELSE <<>>, n + 3, 0),  \* external URL fall back
      Ign(S("B", "r1", "POST", o, FALSE, <<>>, n + 5, n + 4)),  \* anonymous mount attempt
-     S("B", "r1", "POST", o, FALSE, <<>>, n + 5, 0),           \* blobGetUploadURL
-     S("B", "r1", "PUT", o, FALSE, Loc, next, IF ext THEN 0 ELSE n + 6),   \* blobPutUploadFull
+     S("B", "r1", "POST", "u", FALSE, <<>>, n + 5, 0),         \* blobGetUploadURL (no digest in the URL)
+     Src(S("B", "r1", "PUT", o, FALSE, Loc, next, IF ext THEN 0 ELSE n + 6)),   \* blobPutUploadFull
      S("A", "r1", "GET", o, TRUE, <<>>, n + 7, n + 9),         \* Seek(0) on the source reader = new GET
-     S("B", "r1", "PATCH", o, FALSE, Loc, n + 8, n + 9),       \* blobPutUploadChunked
+     S("B", "r1", "PATCH", "u", FALSE, Loc, n + 8, n + 9),     \* blobPutUploadChunked
      S("B", "r1", "PUT", o, FALSE, Loc, next, n + 9),
-     S("B", "r1", "DELETE", o, FALSE, Loc, 0, 0) >>            \* blobUploadCancel
+     S("B", "r1", "DELETE", "u", FALSE, Loc, 0, 0) >>          \* blobUploadCancel
 CopyHead ==   \* image.go:imageCopyOpt: HEAD on the target; when it exists compare with a HEAD of the source
   << S("B", "r1", "HEAD", "m", FALSE, <<>>, 2, 3),
      S("A", "r1", "HEAD", "m", TRUE, <<>>, 99, 0),
@@ -200,9 +205,11 @@ NewLeaks(to, sch, secs, via) ==
   {[k |-> "O1", o |-> o, to |-> to, via |-> via] : o \in O1Bad(named, OwnersOf(secs), to)}
   \cup (IF O2Bad(TlsHosts, sch, to, OwnersOf(secs))
         THEN {[k |-> "O2", o |-> to, to |-> to, via |-> via]} ELSE {})
-Msg(to, sch, secs, via) ==
-  /\ leaks' = leaks \cup NewLeaks(to, sch, secs, via)
-  /\ wire' = Append(wire, [to |-> to, sch |-> sch, own |-> OwnersOf(secs)])
+M(to, sch, secs, via) == [to |-> to, sch |-> sch, secs |-> secs, via |-> via]
+Msgs(ms) ==   \* the messages of one step, in order
+  /\ leaks' = leaks \cup UNION {NewLeaks(ms[i].to, ms[i].sch, ms[i].secs, ms[i].via) : i \in 1..Len(ms)}
+  /\ wire' = wire \o [i \in 1..Len(ms) |-> [to |-> ms[i].to, sch |-> ms[i].sch, own |-> OwnersOf(ms[i].secs)]]
+Msg(to, sch, secs, via) == Msgs(<<M(to, sch, secs, via)>>)
 \* how the credentials on a request to `to` were chosen (classification of a leak)
 Via(to, copied) ==
   IF copied THEN "copied"
@@ -213,9 +220,9 @@ Via(to, copied) ==
 (* Sending                                                                 *)
 (***************************************************************************)
 \* put a registry request on the wire
-SendRq(to, sch, az, ini, strip, copied, brk) ==
+SendRq(to, sch, az, ini, strip, copied, brk, pre) ==
   /\ rq' = [to |-> to, sch |-> sch, az |-> az, ini |-> ini, strip |-> strip, brk |-> brk]
-  /\ Msg(to, sch, {az}, Via(to, copied))
+  /\ Msgs(pre \o <<M(to, sch, {az}, Via(to, copied))>>)
   /\ ph' = "wait"
   /\ tk' = NoTk /\ gc' = NoGc
 
@@ -225,13 +232,13 @@ TokSecs(a, k, stage) ==
   IF stage = "post"
   THEN {IF a[k].rt # None THEN a[k].rt ELSE <<"idt", k[1]>>}
   ELSE IF HasUP(ck) THEN {<<"cred", k[1]>>} ELSE {}
-BeginGen(a, k, ctx, good, nto, nsch, copied) ==
+BeginGen(a, k, ctx, good, nto, nsch, copied, pre) ==
   LET ck == CredKind(k[1], k[3])
       stage == IF a[k].rt # None \/ HasIdt(ck) THEN "post" ELSE "get"
       secs == TokSecs(a, k, stage)
   IN /\ tk' = [stage |-> stage, to |-> a[k].realm[1], sch |-> a[k].realm[2], secs |-> secs]
      /\ gc' = [ctx |-> ctx, key |-> k, good |-> good, nto |-> nto, nsch |-> nsch, copied |-> copied]
-     /\ Msg(a[k].realm[1], a[k].realm[2], secs, IF k[3] # k[1] THEN "foreign-handler" ELSE "own-handler")
+     /\ Msgs(pre \o <<M(a[k].realm[1], a[k].realm[2], secs, IF k[3] # k[1] THEN "foreign-handler" ELSE "own-handler")>>)
      /\ ph' = "gen"
 
 (***************************************************************************)
@@ -240,19 +247,19 @@ BeginGen(a, k, ctx, good, nto, nsch, copied) ==
 Finish(ok) ==
   /\ pc' = IF ok THEN Step.onok ELSE Step.onfail
   /\ loc' = IF ok /\ Step.meth \in {"POST", "PATCH"} THEN <<rq.to, rq.sch>> ELSE loc
-  /\ ph' = "idle" /\ hosts' = <<>> /\ cur' = 1
+  /\ ph' = "idle" /\ hosts' = <<>> /\ cur' = 1 /\ again' = FALSE /\ sg' = ""
   /\ rq' = NoRq /\ tk' = NoTk /\ gc' = NoGc
 DropHost ==   \* dropHost: the host is removed, the loop goes on (or ends with an error)
   LET hs == SubSeq(hosts, 1, cur - 1) \o SubSeq(hosts, cur + 1, Len(hosts)) IN
   IF hs = <<>> THEN Finish(FALSE)
   ELSE /\ hosts' = hs /\ cur' = IF cur > Len(hs) THEN 1 ELSE cur
-       /\ ph' = "attempt" /\ rq' = NoRq /\ tk' = NoTk /\ gc' = NoGc /\ UNCHANGED <<pc, loc>>
+       /\ ph' = "attempt" /\ rq' = NoRq /\ tk' = NoTk /\ gc' = NoGc /\ sg' = "" /\ again' = TRUE /\ UNCHANGED <<pc, loc>>
 NextHost ==   \* backoff without dropping: curHost++
   /\ cur' = IF cur + 1 > Len(hosts) THEN 1 ELSE cur + 1
-  /\ ph' = "attempt" /\ rq' = NoRq /\ tk' = NoTk /\ gc' = NoGc /\ UNCHANGED <<pc, hosts, loc>>
+  /\ ph' = "attempt" /\ rq' = NoRq /\ tk' = NoTk /\ gc' = NoGc /\ sg' = "" /\ again' = TRUE /\ UNCHANGED <<pc, hosts, loc>>
 Backoff == IF Step.ign THEN DropHost ELSE NextHost     \* Req.IgnoreErr: no back-off, the host is dropped
 RetryHost ==  \* retryHost after a good challenge
-  /\ ph' = "attempt" /\ rq' = NoRq /\ tk' = NoTk /\ gc' = NoGc /\ UNCHANGED <<pc, hosts, cur, loc>>
+  /\ ph' = "attempt" /\ rq' = NoRq /\ tk' = NoTk /\ gc' = NoGc /\ sg' = "" /\ again' = TRUE /\ UNCHANGED <<pc, hosts, cur, loc>>
 
 (***************************************************************************)
 (* Client actions                                                          *)
@@ -260,13 +267,13 @@ RetryHost ==  \* retryHost after a good challenge
 StartDo ==
   /\ ph = "idle" /\ Running
   /\ hosts' = IF Step.mir /\ cf.mirror /\ Step.reg = "A" THEN <<"M", "A">> ELSE <<Step.reg>>
-  /\ cur' = 1 /\ ph' = "attempt"
+  /\ cur' = 1 /\ ph' = "attempt" /\ again' = FALSE /\ sg' = ""
   /\ UNCHANGED <<cf, pc, rq, tk, gc, loc, au, nf, named, leaks, wire, script>>
 
 End ==
   /\ ph = "idle" /\ ~Running
   /\ ph' = "end"
-  /\ UNCHANGED <<cf, pc, hosts, cur, rq, tk, gc, loc, au, nf, named, leaks, wire, script>>
+  /\ UNCHANGED <<cf, pc, hosts, cur, rq, tk, gc, again, sg, loc, au, nf, named, leaks, wire, script>>
 
 \* Auth.AddScope(h.Hostname, docker scope): only a bearer handler keyed by the clientHost's own name reacts
 AddScope(a) ==
@@ -275,19 +282,37 @@ AddScope(a) ==
   THEN Put(a, k, [a[k] EXCEPT !.sc = @ \cup ScopeOf, !.tok = None])
   ELSE a
 
+\* credentials A's own Auth attaches to a request for A (UpdateRequest without network)
+SrcAz ==
+  LET kb == <<"A", RK("A", Step.repo), "A", "basic">>
+      kt == <<"A", RK("A", Step.repo), "A", "bearer">>
+  IN IF Has(au, kb) /\ HasUP(cf.cred["A"]) THEN <<"cred", "A">>
+     ELSE IF Has(au, kt) /\ au[kt].tok # None THEN au[kt].tok
+     ELSE None
+SrcM == M("A", IF cf.tls["A"] THEN "https" ELSE "http", {SrcAz}, "own-handler")
+SrcOK == [h |-> "A", o |-> Step.obj, r |-> [t |-> "ok", c |-> "", realm |-> "", rs |-> "", svc |-> "", to |-> "", ts |-> ""]]
+NeedSrc == Step.src /\ again /\ sg = ""
+\* BodyFunc of a repeated attempt: GET on the source registry, always served in this model
+SrcGet ==
+  /\ ph = "attempt" /\ NeedSrc
+  /\ Msgs(<<SrcM>>)
+  /\ script' = Append(script, SrcOK)
+  /\ sg' = "done"
+  /\ UNCHANGED <<cf, pc, ph, hosts, cur, rq, tk, gc, again, loc, au, nf, named>>
+
 Attempt ==
-  /\ ph = "attempt"
+  /\ ph = "attempt" /\ ~NeedSrc
   /\ LET a1 == AddScope(au)
          u == URL
          r == UR(a1, u[1], u[2])
      IN /\ au' = a1
-        /\ CASE r = "none"  -> SendRq(u[1], u[2], None, u[1], FALSE, FALSE, FALSE) /\ UNCHANGED <<pc, hosts, cur, loc>>
-             [] r = "basic" -> SendRq(u[1], u[2], <<"cred", H>>, u[1], FALSE, FALSE, FALSE)
-                               /\ UNCHANGED <<pc, hosts, cur, loc>>
-             [] r = "token" -> SendRq(u[1], u[2], a1[Key(u[1], "bearer")].tok, u[1], FALSE, FALSE, FALSE)
-                               /\ UNCHANGED <<pc, hosts, cur, loc>>
-             [] r = "gen"   -> BeginGen(a1, Key(u[1], "bearer"), "attempt", FALSE, u[1], u[2], None)
-                               /\ UNCHANGED <<pc, hosts, cur, rq, loc>>
+        /\ CASE r = "none"  -> SendRq(u[1], u[2], None, u[1], FALSE, FALSE, FALSE, <<>>) /\ UNCHANGED <<pc, hosts, cur, loc, again, sg>>
+             [] r = "basic" -> SendRq(u[1], u[2], <<"cred", H>>, u[1], FALSE, FALSE, FALSE, <<>>)
+                               /\ UNCHANGED <<pc, hosts, cur, loc, again, sg>>
+             [] r = "token" -> SendRq(u[1], u[2], a1[Key(u[1], "bearer")].tok, u[1], FALSE, FALSE, FALSE, <<>>)
+                               /\ UNCHANGED <<pc, hosts, cur, loc, again, sg>>
+             [] r = "gen"   -> BeginGen(a1, Key(u[1], "bearer"), "attempt", FALSE, u[1], u[2], None, <<>>)
+                               /\ UNCHANGED <<pc, hosts, cur, rq, loc, again, sg>>
              [] r = "err"   -> DropHost /\ UNCHANGED <<leaks, wire>>
   /\ UNCHANGED <<cf, nf, named, script>>
 
@@ -302,7 +327,7 @@ GenOK(a, tokv) ==   \* GenerateAuth returned "Bearer tokv"
                    brk |-> gc.ctx = "redirect" /\ NoRebody(Step)]
          /\ Msg(gc.nto, gc.nsch, {tokv}, Via(gc.nto, FALSE))
          /\ ph' = "wait" /\ tk' = NoTk /\ gc' = NoGc
-         /\ UNCHANGED <<pc, hosts, cur, loc>>
+         /\ UNCHANGED <<pc, hosts, cur, loc, again, sg>>
     [] gc.ctx = "race" ->
          /\ (IF gc.good \/ rq.az # tokv THEN RetryHost ELSE DropHost)
          /\ UNCHANGED <<leaks, wire>>
@@ -328,7 +353,7 @@ TokReply ==
                     LET secs == TokSecs(au, k, "get") IN
                     /\ tk' = [tk EXCEPT !.stage = "get", !.secs = secs]
                     /\ Msg(tk.to, tk.sch, secs, IF k[3] # k[1] THEN "foreign-handler" ELSE "own-handler")
-                    /\ UNCHANGED <<au, pc, ph, hosts, cur, rq, gc, loc>>
+                    /\ UNCHANGED <<au, pc, ph, hosts, cur, rq, gc, loc, again, sg>>
                [] r = "deny" /\ tk.stage = "get" -> au' = au /\ GenFail
                [] r = "err" -> au' = au /\ GenFail
   /\ UNCHANGED <<cf, named>>
@@ -410,16 +435,16 @@ Reply401 ==
             [] c.c = "t" ->
                  LET t == HBearer(au, c, rq.az) IN
                  /\ au' = t.au
-                 /\ IF t.gen THEN BeginGen(t.au, Key(rq.to, "bearer"), "race", FALSE, "", "", None)
-                                  /\ UNCHANGED <<pc, hosts, cur, rq, loc>>
+                 /\ IF t.gen THEN BeginGen(t.au, Key(rq.to, "bearer"), "race", FALSE, "", "", None, <<>>)
+                                  /\ UNCHANGED <<pc, hosts, cur, rq, loc, again, sg>>
                     ELSE (IF t.good /\ ~t.err THEN RetryHost ELSE DropHost) /\ UNCHANGED <<leaks, wire>>
             [] c.c = "bt" ->                           \* Basic first, then Bearer
                  LET b == HBasic(au, c, rq.az)
                      t == HBearer(b.au, c, rq.az)
                  IN /\ au' = t.au
                     /\ IF t.err THEN DropHost /\ UNCHANGED <<leaks, wire>>
-                       ELSE IF t.gen THEN BeginGen(t.au, Key(rq.to, "bearer"), "race", b.good, "", "", None)
-                                          /\ UNCHANGED <<pc, hosts, cur, rq, loc>>
+                       ELSE IF t.gen THEN BeginGen(t.au, Key(rq.to, "bearer"), "race", b.good, "", "", None, <<>>)
+                                          /\ UNCHANGED <<pc, hosts, cur, rq, loc, again, sg>>
                        ELSE (IF b.good \/ t.good THEN RetryHost ELSE DropHost) /\ UNCHANGED <<leaks, wire>>
   /\ nf' = nf + 1
   /\ UNCHANGED cf
@@ -436,29 +461,33 @@ ReplyRedirect ==
            \* the header of the FIRST request of the chain is what gets copied
            copied == IF strip THEN None ELSE rq.az
            r == UR(au, to, sch)
-       IN /\ Rec([t |-> "rd", c |-> "", realm |-> "", rs |-> "", svc |-> "", to |-> to, ts |-> sch])
+           rd == [h |-> rq.to, o |-> Step.obj,
+                  r |-> [t |-> "rd", c |-> "", realm |-> "", rs |-> "", svc |-> "", to |-> to, ts |-> sch]]
+           \* net/http re-opens the body with GetBody = BodyFunc: for a streamed blob a GET on the source
+           pre == IF Step.src THEN <<SrcM>> ELSE <<>>
+       IN /\ script' = IF Step.src THEN Append(Append(script, rd), SrcOK) ELSE Append(script, rd)
           /\ CASE r = "none"  -> SendRq(to, sch, IF Bound(H, to, sch) THEN copied ELSE None, rq.ini, strip,
-                                        copied # None, NoRebody(Step))
-                                 /\ UNCHANGED <<pc, hosts, cur, loc>>
-               [] r = "basic" -> SendRq(to, sch, <<"cred", H>>, rq.ini, strip, FALSE, NoRebody(Step))
-                                 /\ UNCHANGED <<pc, hosts, cur, loc>>
-               [] r = "token" -> SendRq(to, sch, au[Key(to, "bearer")].tok, rq.ini, strip, FALSE, NoRebody(Step))
-                                 /\ UNCHANGED <<pc, hosts, cur, loc>>
-               [] r = "gen"   -> BeginGen(au, Key(to, "bearer"), "redirect", FALSE, to, sch, copied)
+                                        copied # None, NoRebody(Step), pre)
+                                 /\ UNCHANGED <<pc, hosts, cur, loc, again, sg>>
+               [] r = "basic" -> SendRq(to, sch, <<"cred", H>>, rq.ini, strip, FALSE, NoRebody(Step), pre)
+                                 /\ UNCHANGED <<pc, hosts, cur, loc, again, sg>>
+               [] r = "token" -> SendRq(to, sch, au[Key(to, "bearer")].tok, rq.ini, strip, FALSE, NoRebody(Step), pre)
+                                 /\ UNCHANGED <<pc, hosts, cur, loc, again, sg>>
+               [] r = "gen"   -> BeginGen(au, Key(to, "bearer"), "redirect", FALSE, to, sch, copied, pre)
                                  /\ rq' = [rq EXCEPT !.strip = strip]
-                                 /\ UNCHANGED <<pc, hosts, cur, loc>>
-               [] r = "err"   -> Backoff /\ UNCHANGED <<leaks, wire>>
+                                 /\ UNCHANGED <<pc, hosts, cur, loc, again, sg>>
+               [] r = "err"   -> Backoff /\ Msgs(pre)
   /\ nf' = nf + 1
   /\ UNCHANGED <<cf, au, named>>
 
 Init ==
   /\ cf \in Confs
   /\ pc = 1 /\ ph = "idle" /\ hosts = <<>> /\ cur = 1
-  /\ rq = NoRq /\ tk = NoTk /\ gc = NoGc /\ loc = <<>>
+  /\ rq = NoRq /\ tk = NoTk /\ gc = NoGc /\ loc = <<>> /\ again = FALSE /\ sg = ""
   /\ au = <<>> /\ nf = 0 /\ named = {} /\ leaks = {} /\ wire = <<>> /\ script = <<>>
 
 Next ==
-  \/ StartDo \/ Attempt \/ TokReply
+  \/ StartDo \/ SrcGet \/ Attempt \/ TokReply
   \/ ReplyNatural \/ ReplyBroken \/ ReplyFault \/ Reply401 \/ ReplyRedirect
   \/ End
 
